@@ -98,7 +98,7 @@ func domList(d map[clockDomain]bool) string {
 }
 
 func checkC15(c *Ctx) {
-	c.explanation = "Static decision on msg's SSA and must-locksets of: (G1/N1) the append to a topic's buffer is dominated by the per-sender count test whose over-limit arm returns without appending, the counter is incremented in the same exclusive section, and the creation of topic bookkeeping for a sender is dominated by the per-sender topic-count test; (P1) every storedMessages is constructed with the Box's logger (the over-limit arm logs through it: shedding must not fail); (O1) every deletion from pendingMessages is in an exclusive section that also removes the topic from totalInFlightTopicsBySender for the senders of that entry; (O2/O3) a bookkeeping entry is made only together with a buffered message and every buffered message has its (sender, topic) entered on the way; (D1) no comparison mixes clock domains (epoch counter, durations in ns, wall-clock units): GCExpire/GCSweep is an epoch count, atomic loads of the counters and the stored started/last-used marks are epochs; (A1) maybeGC proceeds only when at least GCExpire/GCSweep epochs have passed since the last collection (so an idle period cannot disable it) and lastGC is only ever set to the epoch just read. Quantitative bounds under concurrency (\"give or take one\") and long histories as behaviour are not decided; the two-section check-then-act on the per-sender topic count is deliberately not armed (with one connection per sender it is the property's tolerance)."
+	c.explanation = "Static decision on msg's SSA and must-locksets of: (G1/N1) the append to a topic's buffer is dominated by the per-sender count test whose over-limit arm returns without appending, the counter is incremented in the same exclusive section, and the creation of topic bookkeeping for a sender is dominated by the per-sender topic-count test; (P1) every storedMessages is constructed with the Box's logger (the over-limit arm logs through it: shedding must not fail); (O1) every deletion from pendingMessages is in an exclusive section that also removes the topic from totalInFlightTopicsBySender for the senders of that entry; (E1) the last-used stamp of a buffer is written only under the same per-sender limit test as the append, so that shed traffic does not keep a topic alive; (O2/O3) a bookkeeping entry is made only together with a buffered message and every buffered message has its (sender, topic) entered on the way; (D1) no comparison mixes clock domains (epoch counter, durations in ns, wall-clock units): GCExpire/GCSweep is an epoch count, atomic loads of the counters and the stored started/last-used marks are epochs; (A1) maybeGC proceeds only when at least GCExpire/GCSweep epochs have passed since the last collection (so an idle period cannot disable it) and lastGC is only ever set to the epoch just read. Quantitative bounds under concurrency (\"give or take one\") and long histories as behaviour are not decided; the two-section check-then-act on the per-sender topic count is deliberately not armed (with one connection per sender it is the property's tolerance)."
 	c.notDecided = "quantitative bounds under concurrent dispatchers of one sender; long histories as behaviour"
 	c.Assume("sync.RWMutex and sync/atomic semantics; the injected ticker drives the epoch counter")
 	b := buildBoxModel(c)
@@ -106,7 +106,7 @@ func checkC15(c *Ctx) {
 		return
 	}
 	m := b.m
-	const G1, P1, O1, O2, O3, D1, A1 = "C15.G1", "C15.P1", "C15.O1", "C15.O2", "C15.O3", "C15.D1", "C15.A1"
+	const G1, P1, O1, O2, O3, D1, A1, E1 = "C15.G1", "C15.P1", "C15.O1", "C15.O2", "C15.O3", "C15.D1", "C15.A1", "C15.E1"
 	c.Rule(G1, "limits dominate appends and bookkeeping creation", 1)
 	c.Rule(P1, "shedding cannot fail: buffers are built with a logger", 1)
 	c.Rule(O1, "bookkeeping released with the topic", 1)
@@ -155,6 +155,50 @@ func checkC15(c *Ctx) {
 		c.Check(okInc, G1, FuncName(fn), "counter incremented with the append", m.Pos(st.Pos()), "count[msg.Source]++ in the same exclusive section of storedMessages.lock as the test and the append",
 			"the per-sender counter is not incremented together with the append (or outside the lock): the limit is never reached or is raced")
 	}
+	// ------------------------------------------------------------------ E1
+	// only a message that is buffered keeps its topic alive: the last-used stamp of a buffer is written
+	// under the same "within the per-sender limit" test as the append.  Otherwise traffic that is shed
+	// still refreshes the stamp and a sender over its quota keeps a topic that never starts (and its
+	// bookkeeping) from ever expiring.
+	c.Rule(E1, "only buffered messages refresh the topic's last-used stamp", 1)
+	withinLimit := func(at ssa.Instruction) bool {
+		return hasFact(FactsAt(at), func(f Fact) bool {
+			if f.Op != token.LEQ && f.Op != token.LSS {
+				return false
+			}
+			lk, isL := strip(f.X).(*ssa.Lookup)
+			k, isK := constInt(f.Y)
+			return isL && isK && k > 0 && isLoadOfField(lk.X, b.fCount) && isLoadOfField(lk.Index, fSource)
+		})
+	}
+	nStamp := 0
+	if b.fLastUsed != nil {
+		for _, st := range storesToField(b.fns, b.fLastUsed) {
+			if _, isK := st.Val.(*ssa.Const); isK {
+				continue // initialisation
+			}
+			nStamp++
+			// the store itself, or the call that leads to it from the function holding the append
+			ok := withinLimit(st)
+			if !ok {
+				for _, ap := range b.appendStores() {
+					ctxs, _ := contextsOf(st, map[*ssa.Function]bool{ap.Parent(): true}, b.fns, 2)
+					for _, sc := range ctxs {
+						if len(sc.Calls) > 0 && withinLimit(sc.Calls[0].(ssa.Instruction)) {
+							ok = true
+						}
+					}
+				}
+			}
+			c.Check(ok, E1, FuncName(st.Parent()), "last-used stamp written only for a buffered message", m.Pos(st.Pos()),
+				"the store to lastUsed is dominated by count[msg.Source] ≤ limit (the over-limit arm returns before it)",
+				"the last-used stamp of the topic's buffer is refreshed regardless of the per-sender limit: traffic that is shed still keeps the topic alive, so a sender over its quota can keep the buffered data and the bookkeeping of a topic that never starts from ever expiring")
+		}
+	}
+	if nStamp == 0 {
+		c.Bad(E1, "msg", "stores to storedMessages.lastUsed", "-", "no store to the last-used stamp found: buffers would never be seen as used (or the field is gone)")
+	}
+
 	// topic bookkeeping creation
 	entries := map[*ssa.Function]bool{}
 	for _, fn := range b.fns {
